@@ -7,6 +7,20 @@ import subprocess
 MUTATORS = ("rename", "renameat", "renameat2", "mkdir", "mkdirat", "unlink", "unlinkat", "rmdir",
             "chmod", "fchmod", "fchmodat", "link", "linkat", "symlink", "symlinkat", "truncate",
             "ftruncate", "write", "pwrite64", "writev", "creat")
+DIGEST = {"h": None}   # when enabled (selfcheck determinism), every event log of the current case is folded in
+
+
+def digest_update(text, slot=None):
+    if DIGEST["h"] is None:
+        return
+    if slot:
+        text = text.replace(slot, "@SLOT@")
+    # canonicalize() also probes every prefix of the slot path
+    text = re.sub(r"/vf-[0-9a-f]{8}(/w[0-9]{3})?", "/@RUN@", text)
+    DIGEST["h"].update(text.encode("utf-8", "replace"))
+    DIGEST["h"].update(b"\x00")
+
+
 TMP_RE = re.compile(r"^\.tmp[A-Za-z0-9]{6}$")
 TMP_IN_TEXT_RE = re.compile(r"\.tmp[A-Za-z0-9]{6}\b")
 
@@ -146,6 +160,7 @@ def run(env, cwd, argv, hash_seed=1, dirent_seed=1, env_pad=0, faults=(), max_ca
         raise RuntimeError("simkernel error: %s\n%s" % (p.stderr, text[-2000:]))
     res.stdout = open(outp, encoding="utf-8", errors="replace").read() if os.path.exists(outp) else ""
     res.stderr = open(errp, encoding="utf-8", errors="replace").read() if os.path.exists(errp) else ""
+    digest_update(text + "\n--stderr--\n" + normalise_text(res.stderr), env.slot())
     return res
 
 
